@@ -270,6 +270,121 @@ def parse_default_max(src: str) -> int:
     raise TranslateError("ConfigTask.max_retries default not recognised")
 
 
+def _names_bound(stmts: list) -> list[str]:
+    """every name (re)bound by the statements, with multiplicity (assignments, walrus, for/with targets)"""
+    out = []
+    for s in stmts:
+        for n in ast.walk(s):
+            if isinstance(n, ast.Name) and isinstance(n.ctx, (ast.Store, ast.Del)):
+                out.append(n.id)
+    return out
+
+
+def parse_sync_group(src: str) -> dict:
+    """pynenc/task.py  distribute_calls, the branch taken under dev_mode_force_sync_tasks:
+
+          <L> = []                                   (anything else that does not touch L / all_args)
+          for <a> in all_args:
+              <v> = task._call(<a>)
+              if not isinstance(<v>, ConcurrentInvocation): raise ...
+              <L>.append(<v>)
+          return ConcurrentInvocationGroup(task, <L>)
+
+    -> own_invocations = True: every element of the parallelized list becomes its own, freshly created
+       invocation of the group (in list order).
+    Recognised DEVIATIONS give own_invocations = False (the model then shares the invocation of a repeated
+    argument set and the theorems over the generated fact break): the appended value is not the value bound
+    by `task._call(<a>)` in that iteration (re-bound in between / another expression), the append is
+    conditional or skipped (`continue`/`break`), the loop does not range over all of `all_args`, or the
+    list is rebuilt / mutated before it is handed to the group.  Anything else: TranslateError."""
+    tree = ast.parse(src)
+    fn = _find_func(tree.body, "distribute_calls")
+    body = [s for s in fn.body if not (isinstance(s, ast.Expr) and isinstance(s.value, ast.Constant))]
+    branches = [s for s in body if isinstance(s, ast.If) and _dotted(s.test) == "task.app.conf.dev_mode_force_sync_tasks"]
+    if len(branches) != 1:
+        raise TranslateError("distribute_calls: no single `if task.app.conf.dev_mode_force_sync_tasks:` branch")
+    br = branches[0]
+    before = body[:body.index(br)]
+    # all_args = prepare_arguments(task, param_list, common_args), bound once, before the branch
+    binds = [s for s in before if isinstance(s, ast.Assign) and len(s.targets) == 1 and _dotted(s.targets[0]) == "all_args"]
+    if len(binds) != 1 or not (isinstance(binds[0].value, ast.Call) and _dotted(binds[0].value.func) == "prepare_arguments"):
+        raise TranslateError("distribute_calls: all_args is not bound once from prepare_arguments(...)")
+    if _names_bound(fn.body).count("all_args") != 1:
+        return {"own_invocations": False, "why": "all_args is re-bound"}
+    stmts = br.body
+    if not stmts or not isinstance(stmts[-1], ast.Return):
+        raise TranslateError("distribute_calls: the sync branch does not end with a return")
+    ret = stmts[-1].value
+    if not (isinstance(ret, ast.Call) and _dotted(ret.func) == "ConcurrentInvocationGroup" and len(ret.args) == 2
+            and not ret.keywords and _dotted(ret.args[0]) == "task"):
+        raise TranslateError("distribute_calls: the sync branch does not return ConcurrentInvocationGroup(task, <list>)")
+    if not isinstance(ret.args[1], ast.Name):
+        return {"own_invocations": False, "why": "the group is not built from the list of created invocations itself"}
+    lst = ret.args[1].id
+    loops = [s for s in stmts[:-1] if isinstance(s, (ast.For, ast.While))]
+    if len(loops) != 1 or not isinstance(loops[0], ast.For):
+        raise TranslateError("distribute_calls: the sync branch does not have exactly one for loop")
+    loop = loops[0]
+    rest = [s for s in stmts[:-1] if s is not loop]
+    # the list starts empty and nothing but the loop touches it
+    inits = [s for s in rest if isinstance(s, (ast.Assign, ast.AnnAssign))
+             and _dotted(s.targets[0] if isinstance(s, ast.Assign) else s.target) == lst]
+    if len(inits) != 1 or not (isinstance(inits[0].value, ast.List) and not inits[0].value.elts):
+        raise TranslateError(f"distribute_calls: `{lst}` is not initialised to [] once in the sync branch")
+    if stmts.index(inits[0]) > stmts.index(loop):
+        raise TranslateError(f"distribute_calls: `{lst}` initialised after the loop")
+    for s in rest:
+        if s is inits[0]:
+            continue
+        if any(isinstance(n, ast.Name) and n.id == lst for n in ast.walk(s)):
+            return {"own_invocations": False, "why": f"`{lst}` is rebuilt or mutated outside the loop"}
+    if loop.orelse:
+        raise TranslateError("distribute_calls: for ... else")
+    if not (isinstance(loop.target, ast.Name) and isinstance(loop.iter, ast.Name)):
+        if any(isinstance(n, ast.Name) and n.id == "all_args" for n in ast.walk(loop.iter)):
+            return {"own_invocations": False, "why": "the loop does not range over all_args itself"}
+        raise TranslateError("distribute_calls: loop header not recognised")
+    if loop.iter.id != "all_args":
+        raise TranslateError("distribute_calls: the loop does not range over all_args")
+    arg = loop.target.id
+    fresh = None          # the name bound by `v = task._call(arg)`
+    appended = 0
+    for s in loop.body:
+        if (isinstance(s, ast.Assign) and len(s.targets) == 1 and isinstance(s.targets[0], ast.Name)
+                and isinstance(s.value, ast.Call) and _dotted(s.value.func) == "task._call"
+                and len(s.value.args) == 1 and not s.value.keywords and _dotted(s.value.args[0]) == arg
+                and fresh is None):
+            fresh = s.targets[0].id
+        elif (isinstance(s, ast.If) and not s.orelse and all(isinstance(x, ast.Raise) for x in s.body)
+              and isinstance(s.test, ast.UnaryOp) and isinstance(s.test.op, ast.Not)
+              and isinstance(s.test.operand, ast.Call) and _dotted(s.test.operand.func) == "isinstance"):
+            continue      # the type guard
+        elif (isinstance(s, ast.Expr) and isinstance(s.value, ast.Call) and _dotted(s.value.func) == f"{lst}.append"
+              and len(s.value.args) == 1 and not s.value.keywords):
+            if fresh is None or _dotted(s.value.args[0]) != fresh:
+                return {"own_invocations": False, "why": "the appended value is not the invocation created in this iteration"}
+            appended += 1
+        elif isinstance(s, ast.Expr) and isinstance(s.value, ast.Call) and (_dotted(s.value.func) or "").startswith("task.logger."):
+            continue
+        else:
+            touched = {n.id for n in ast.walk(s) if isinstance(n, ast.Name)}
+            jumps = any(isinstance(n, (ast.Continue, ast.Break, ast.Return)) for n in ast.walk(s))
+            if jumps or lst in touched or (fresh is not None and fresh in _names_bound([s])) or arg in _names_bound([s]):
+                return {"own_invocations": False,
+                        "why": "an element can be skipped, or the created invocation / the list is replaced inside the loop"}
+            if fresh is None and any(isinstance(n, ast.Call) and _dotted(n.func) == "task._call" for n in ast.walk(s)):
+                raise TranslateError("distribute_calls: task._call used in an unrecognised way")
+            # bookkeeping that neither jumps nor touches the list / the created invocation's binding
+            continue
+    if fresh is None:
+        raise TranslateError("distribute_calls: the loop does not create an invocation with task._call(<element>)")
+    if _names_bound(loop.body).count(fresh) != 1:
+        return {"own_invocations": False, "why": f"`{fresh}` is re-bound between task._call and the append"}
+    if appended != 1:
+        return {"own_invocations": False, "why": f"{appended} appends per element"}
+    return {"own_invocations": True, "why": "one fresh invocation appended per element of all_args"}
+
+
 def _b(x: bool) -> str:
     return "true" if x else "false"
 
